@@ -90,6 +90,11 @@ OP(op_aead128_reject_at_block_end) { uint8_t *pt = (uint8_t *)c + sizeof(tctx) -
 OP(op_aead128a_roundtrip_at_block_end) { uint8_t ct[64]; size_t cl = 0, l = 0; uint8_t *pt = (uint8_t *)c + sizeof(tctx) - 21; ascon128a_aead_encrypt(ct, &cl, IN.msg, 21, IN.ad, 4, IN.nonce, IN.key); out[0] = (uint8_t)ascon128a_aead_decrypt(pt, &l, ct, cl, IN.ad, 4, IN.nonce, IN.key); memcpy(out + 1, pt, 21); *ol = 22; }
 OP(op_siv80pq_reject_at_block_end) { uint8_t *pt = (uint8_t *)c + sizeof(tctx) - 11; size_t l = 0; out[0] = (uint8_t)ascon80pq_siv_decrypt(pt, &l, IN.msg, 11 + 16, 0, 0, IN.nonce, IN.key); memcpy(out + 1, pt, 11); *ol = 12; }
 OP(op_hash_xof_at_block_end) { uint8_t *o2 = (uint8_t *)c + sizeof(tctx) - 37; ascon_xof_state_t x; ascon_xof_init(&x); ascon_xof_absorb(&x, IN.msg, 30); ascon_xof_squeeze(&x, o2, 37); ascon_xof_free(&x); memcpy(out, o2, 37); ascon_prf(o2 + 8, 29, IN.msg, 9, IN.key); memcpy(out + 37, o2 + 8, 29); *ol = 66; }
+/* a constant ciphertext byte_array shared by all threads, decrypted by each thread's own cipher object through the two- and three-argument overloads
+ * (only in the free-running pass, where the object is created before the threads start; the copy-on-write byte_array of ASCON_NO_STL builds has a reference count) */
+extern void *c16_shared_ct; extern uint8_t c16_shared_ct_key[16], c16_shared_ct_nonce[16];
+OP(op_cpp_shared_byte_array) { if (!c16_shared_ct) { *ol = 0; return; } void *h = cpps_new(0, 1); cpps_set_key(h, c16_shared_ct_key, 16); cpps_set_nonce(h, c16_shared_ct_nonce, 16);
+    int a = cpps_decrypt_shared_ba(h, out + 2, c16_shared_ct, 0, 0, 1); cpps_set_nonce(h, c16_shared_ct_nonce, 16); int b = cpps_decrypt_shared_ba(h, out + 60, c16_shared_ct, 0, 0, 2); cpps_delete(h); out[0] = (uint8_t)a; out[1] = (uint8_t)b; *ol = 110; }
 
 typedef struct { const char *name; opfn fn; } opdesc;
 static const opdesc OPS[] = {
@@ -101,6 +106,7 @@ static const opdesc OPS[] = {
     {"permutation-api", op_permutation}, {"nonce-helpers", op_nonce_helpers}, {"cpp-aead128a", op_cpp_aead128a}, {"cpp-masked80pq", op_cpp_masked80pq}, {"cpp-siv128", op_cpp_siv128}, {"cpp-isap128a", op_cpp_isap128a},
     {"masked80pq-shared-key-rejecting-decrypt", op_masked80pq_shared_reject}, {"masked128-shared-key-rejecting-decrypt", op_masked128_shared_reject}, {"isap128a-shared-key-rejecting-decrypt", op_isap128a_shared_reject},
     {"aead128-rejecting-decrypt-at-block-end", op_aead128_reject_at_block_end}, {"aead128a-roundtrip-at-block-end", op_aead128a_roundtrip_at_block_end}, {"siv80pq-rejecting-decrypt-at-block-end", op_siv80pq_reject_at_block_end}, {"xof+prf-output-at-block-end", op_hash_xof_at_block_end},
+    {"cpp-shared-constant-byte_array", op_cpp_shared_byte_array},
 };
 #define NOPS ((int)(sizeof OPS / sizeof OPS[0]))
 
